@@ -30,6 +30,33 @@ class Goto(Exception):
         self.label = label
 
 
+class LayerEnv(dict):
+    """environment of a lambda body: its own parameters and locals, on top of the defining function's environment (captures are
+    read from there, and a write to a captured variable (capture by reference) lands there)"""
+    def __init__(self, parent):
+        dict.__init__(self)
+        self.parent = parent
+
+    def __contains__(self, k):
+        return dict.__contains__(self, k) or k in self.parent
+
+    def __getitem__(self, k):
+        if dict.__contains__(self, k):
+            return dict.__getitem__(self, k)
+        return self.parent[k]
+
+    def get(self, k, d=None):
+        if dict.__contains__(self, k):
+            return dict.__getitem__(self, k)
+        return self.parent.get(k, d)
+
+    def __setitem__(self, k, v):
+        if not dict.__contains__(self, k) and k in self.parent:
+            self.parent[k] = v
+        else:
+            dict.__setitem__(self, k, v)
+
+
 class Closure:
     def __init__(self, node, env, this):
         self.node = node
@@ -85,9 +112,9 @@ class Evaluator:
         return this
 
     def call_closure(self, c, args):
-        env = dict(c.env)
+        env = LayerEnv(c.env)
         for p, a in zip(c.node["params"], args):
-            env[p["id"]] = a
+            dict.__setitem__(env, p["id"], a)
         try:
             self.block(c.node["body"], env, c.this)
         except Ret as r:
